@@ -94,10 +94,15 @@ def skipQualifiers : List Token → List Token
 termination_by ts => ts.length
 
 /-- scan for the `>` matching the `<` at the head; returns the list starting *at* that `>` -/
+def canAppearInTypeArgs (t : TokenType) : Bool :=
+  t == .Identifier || t == .Dot || t == .Comma || t == .Less || t == .Greater || t == .LBracket || t == .RBracket ||
+  t == .IntegerLiteral || primTypeToks.contains t
+
 def skipToMatchingGreater : Nat → List Token → Option (List Token)
   | _, [] => none
   | depth, t :: rest =>
-    if t.type == .Less then skipToMatchingGreater (depth + 1) rest
+    if !canAppearInTypeArgs t.type then none
+    else if t.type == .Less then skipToMatchingGreater (depth + 1) rest
     else if t.type == .Greater then
       if depth = 1 then some (t :: rest) else skipToMatchingGreater (depth - 1) rest
     else skipToMatchingGreater depth rest
